@@ -3,7 +3,7 @@
 import ast
 
 from ..core.analysis import Analysis, assigned_names, facts
-from ..core.astutil import enclosing_trys, handler_catches
+from ..core.astutil import deref, enclosing_trys, handler_catches
 from ..core.cfg import decompose_guard
 from ..core.pyrepo import Repo, calls_in, dotted, norm_stmt
 
@@ -108,8 +108,18 @@ def run(ctx):
     wn = repo.func("_common", "wrap_numbers")
     c = [x for x in calls_in(wn.node) if isinstance(x.func, ast.Attribute)
          and x.func.attr == "run"]
+    # ... or through a method of the instance that takes the lock around run()
+    via_m = [x for x in calls_in(wn.node) if isinstance(x.func, ast.Attribute)
+             and dotted(x.func.value) == iname and x.func.attr in meths and x.func.attr != "run"
+             and any(isinstance(y.func, ast.Attribute) and y.func.attr == "run"
+                     and dotted(y.func.value) == "self"
+                     and _under_lock(meths[x.func.attr][0].node, y, "self.lock")
+                     for y in calls_in(meths[x.func.attr][0].node))]
     if c and _under_lock(wn.node, c[0], f"{iname}.lock"):
         ctx.ok("C10.R1", "wrap_numbers", sample=f"with {iname}.lock: {iname}.run(...)")
+    elif via_m and not bad_methods:
+        ctx.ok("C10.R1", "wrap_numbers", sample=f"{iname}.{via_m[0].func.attr}(): with self.lock: "
+                                                f"self.run(...)")
     elif c and not bad_methods:
         ctx.ok("C10.R1", "wrap_numbers", sample="run() takes the lock itself around every access")
     else:
@@ -162,18 +172,31 @@ def run(ctx):
         return v[0].value if len(v) == 1 and isinstance(v[0], ast.Assign) else None
 
     # the per-counter loop
+    # `for i in range(len(t))` or `for i, v in enumerate(t)`
     inner = [s for s in ast.walk(run_.node) if isinstance(s, ast.For)
-             and isinstance(s.iter, ast.Call) and dotted(s.iter.func) == "range"]
+             and isinstance(s.iter, ast.Call) and dotted(s.iter.func) in ("range", "enumerate")]
     ctx.require(inner, "run(): per-counter loop vanished")
     lp = inner[0]
-    idx = dotted(lp.target)
+    enum_val = None
+    if dotted(lp.iter.func) == "enumerate" and isinstance(lp.target, ast.Tuple) \
+            and len(lp.target.elts) == 2:
+        idx = dotted(lp.target.elts[0])
+        enum_val = (dotted(lp.target.elts[1]), lp.iter.args[0] if lp.iter.args else None)
+    else:
+        idx = dotted(lp.target)
+
+    def rem_text(e):
+        # the reminders table, also through a local alias (r = self.reminders[name])
+        return norm_stmt(deref(run_.node, e))
     augs = [s for s in ast.walk(run_.node) if isinstance(s, ast.AugAssign)
-            and "self.reminders" in norm_stmt(s.target)]
+            and isinstance(s.target, ast.Subscript) and "self.reminders" in rem_text(s.target.value)]
     # element writes `self.reminders[name][k] = v` (creating the per-name table,
     # `self.reminders[name] = defaultdict(int)`, is initialisation, not an update)
     writes = [s for s in ast.walk(run_.node) if isinstance(s, ast.Assign)
-              and any(isinstance(t, ast.Subscript) and isinstance(t.value, ast.Subscript)
-                      and "self.reminders" in norm_stmt(t) for t in s.targets)]
+              and any(isinstance(t, ast.Subscript)
+                      and "self.reminders" in rem_text(t.value)
+                      and rem_text(t.value).replace(" ", "") != "self.reminders"
+                      for t in s.targets)]
     probs = []
     newv = oldv = None
     if len(augs) != 1 or writes or not isinstance(augs[0].op, ast.Add):
@@ -201,8 +224,10 @@ def run(ctx):
             ot = src(dotted(so.value))
             if ot is None or "old_dict" not in norm_stmt(ot) and "self.cache" not in norm_stmt(ot):
                 pass
-        if newv and (sn is None or not (isinstance(sn, ast.Subscript)
-                                         and dotted(sn.slice) == idx)):
+        if newv and enum_val and newv == enum_val[0]:
+            pass        # enumerate(): the loop hands out input_tuple[i] itself
+        elif newv and (sn is None or not (isinstance(sn, ast.Subscript)
+                                           and dotted(sn.slice) == idx)):
             probs.append("the compared value is not input_tuple[i]")
         # reminder key is (key, i)
         rk = a.target.slice if isinstance(a.target, ast.Subscript) else None
@@ -222,8 +247,9 @@ def run(ctx):
     if apps and newv:
         v = apps[0].args[0]
         if isinstance(v, ast.BinOp) and isinstance(v.op, ast.Add):
-            parts = {norm_stmt(v.left), norm_stmt(v.right)}
-            rem = norm_stmt(augs[0].target) if augs else "?"
+            parts = {rem_text(v.left) if isinstance(v.left, ast.Subscript) else norm_stmt(v.left),
+                     rem_text(v.right) if isinstance(v.right, ast.Subscript) else norm_stmt(v.right)}
+            rem = rem_text(augs[0].target) if augs else "?"
             if parts == {newv, rem}:
                 # unconditional in the loop body
                 for n in cfg.owners(apps[0]):
@@ -292,6 +318,22 @@ def run(ctx):
                             if sv is not None and norm_stmt(sv).replace(" ", "") == \
                                     f"{din}[{dotted(outer[0].target)}]":
                                 nk = True
+    if outer and not nk:
+        # the same decision spelled as a membership test: `if key not in old: ...; continue`
+        kname = dotted(outer[0].target)
+        for blk in [b_ for b_ in ast.walk(outer[0]) if isinstance(b_, ast.If)]:
+            for seq in (blk.body, blk.orelse):
+                st = [s_ for s_ in seq if isinstance(s_, ast.Assign)
+                      and isinstance(s_.targets[0], ast.Subscript)]
+                if not st or not any(isinstance(s_, ast.Continue) for s_ in seq):
+                    continue
+                v = st[0].value
+                sv = src(dotted(v)) if dotted(v) else v
+                if sv is None or norm_stmt(sv).replace(" ", "") != f"{din}[{kname}]":
+                    continue
+                if any(f_[0] == "in" and f_[1] == kname and f_[3] is False
+                       for n_ in cfg.nodes_of(st[0]) for f_ in facts(cfg, n_)):
+                    nk = True
     if nk:
         ctx.ok("C10.R2", "new-key", sample="KeyError on the old snapshot -> raw tuple")
     else:
@@ -334,7 +376,6 @@ def run(ctx):
                  "history")
     rdr = meths["_remove_dead_reminders"][0]
     txt = norm_stmt(rdr.node)
-    from ..core.astutil import deref
     # the statement that computes (old keys - new keys): an assignment, or the
     # header of the loop that iterates it directly
     gk = []
@@ -391,11 +432,23 @@ def run(ctx):
     cc = meths["cache_clear"][0]
     ccfg = A.cfg(cc)
     pname = [a.arg for a in cc.node.args.args if a.arg != "self"][0]
-    clears = {dotted(c.func.value) for c in calls_in(cc.node)
-              if isinstance(c.func, ast.Attribute) and c.func.attr == "clear"}
-    pops = {dotted(c.func.value) for c in calls_in(cc.node)
+    def receivers(c):
+        # the object(s) a method is called on: itself, or - for a loop variable
+        # ranging over a literal tuple/list of objects - each of them
+        r = c.func.value
+        if isinstance(r, ast.Name):
+            for lp_ in ast.walk(cc.node):
+                if isinstance(lp_, ast.For) and dotted(lp_.target) == r.id \
+                        and any(x is c for x in ast.walk(lp_)):
+                    it_ = deref(cc.node, lp_.iter)
+                    if isinstance(it_, (ast.Tuple, ast.List)):
+                        return {dotted(e_) for e_ in it_.elts}
+        return {dotted(r)}
+    clears = {r for c in calls_in(cc.node)
+              if isinstance(c.func, ast.Attribute) and c.func.attr == "clear" for r in receivers(c)}
+    pops = {r for c in calls_in(cc.node)
             if isinstance(c.func, ast.Attribute) and c.func.attr == "pop"
-            and c.args and dotted(c.args[0]) == pname}
+            and c.args and dotted(c.args[0]) == pname for r in receivers(c)}
     if clears == set(STATE) and pops == set(STATE):
         ctx.ok("C10.R3", "cache_clear", sample="clear()/pop(name) on all three maps")
     else:
